@@ -43,6 +43,20 @@ def load_variants() -> List[dict]:
             continue  # documented miss (DESIGN.md section 9)
         out.append({"id": "seeded:" + meta["id"], "kind": "mutant", "prop": meta["breaks_property"],
                     "patch": os.path.join(os.path.dirname(meta_path), "patch.diff")})
+    # authored here: a refactoring from the neutral corpus combined with a defect in the
+    # refactored code (tests that the helper-aware rules do not accept a broken helper)
+    for meta_path in sorted(glob.glob(os.path.join(VERIF, "selftest", "authored", "*", "meta.json"))):
+        with open(meta_path) as fh:
+            meta = json.load(fh)
+        v = {"id": "authored:" + meta["id"], "kind": meta.get("kind", "mutant"),
+             "patch": os.path.join(os.path.dirname(meta_path), "patch.diff")}
+        if meta.get("kind") == "neutral":
+            v["props"] = meta.get("props") or ALL_PROPS
+        else:
+            v["prop"] = meta["prop"]
+            if meta.get("rule"):
+                v["rule"] = meta["rule"]
+        out.append(v)
     for meta_path in sorted(glob.glob(os.path.join(VERIF, "neutral", "*", "meta.json"))):
         with open(meta_path) as fh:
             meta = json.load(fh)
